@@ -52,6 +52,7 @@ from pynetdicom.status import (
     SUBSTANCE_ADMINISTRATION_SERVICE_CLASS_STATUS,
     STORAGE_SERVICE_CLASS_STATUS,
     VERIFICATION_SERVICE_CLASS_STATUS,
+    code_to_category,
 )
 
 if TYPE_CHECKING:  # pragma: no cover
@@ -1843,6 +1844,12 @@ class QueryRetrieveServiceClass(ServiceClass):
                 status = self.statuses[rsp.Status]
             else:
                 # Unknown status
+                if code_to_category(cast(int, rsp.Status)) == STATUS_PENDING:
+                    # A 'Pending' status that isn't valid for the service can't
+                    #   end the operation: the requestor would keep waiting for
+                    #   the final response
+                    LOGGER.error("Invalid 'Pending' status returned by callback")
+                    rsp.Status = 0xC002
                 store_results[1] += 1
                 self.dimse.send_msg(rsp, cx_id)
                 return
@@ -2277,6 +2284,12 @@ class QueryRetrieveServiceClass(ServiceClass):
                 status = self.statuses[rsp.Status]
             else:
                 # Unknown status
+                if code_to_category(cast(int, rsp.Status)) == STATUS_PENDING:
+                    # A 'Pending' status that isn't valid for the service can't
+                    #   end the operation: the requestor would keep waiting for
+                    #   the final response
+                    LOGGER.error("Invalid 'Pending' status returned by callback")
+                    rsp.Status = 0xC002
                 store_assoc.release()
                 self.dimse.send_msg(rsp, cx_id)
                 return
